@@ -20,6 +20,11 @@ INFO_VALS = ["v", "w", "x"]
 SYMS = ["=", "<", "<=", ">", ">="]
 CMP_COQ = {"=": "CEq", "<": "CLt", "<=": "CLe", ">": "CGt", ">=": "CGe"}
 
+# which variant of the model describes the code under test: "current" (the pinned tree), "inv" / "slice"
+# (one of the proposed repairs applied), "repaired" (both).  The lead flips the default when fixes land.
+DEFAULT_VARIANT = "current"
+LABEL_FN = {"current": "case_labels", "repaired": "case_labels_repaired", "inv": "case_labels_inv", "slice": "case_labels_slice"}
+
 KNOWN_CLASSES = {
     2: "inverted-named-in-junction",
     4: "or-merge-different-tables",
@@ -200,6 +205,54 @@ def gen_pred(rng, db, depth, pool, style):
     return ["not", gen_pred(rng, db, depth - 1, pool, style)]
 
 
+def gen_none_cmp(rng, pool):
+    short = [e for e in pool if len(e[0]) == 1] or pool
+    path, _ = rng.choice(short)
+    return ["cmp", list(path), "=", {"none": 1}]
+
+
+def gen_algebraic(rng, db, pool):
+    """Boolean identities over shared sub-predicates: exercise set de-duplication, hashing / equality of query
+    objects (x vs ~x), flattening of nested junctions and the merge by name."""
+    def leaf(neg_ok=False):
+        r = rng.random()
+        if neg_ok and r < 0.4:
+            return gen_none_cmp(rng, pool)       # negation of these survives the junction in the current code
+        if neg_ok and r < 0.8:
+            return gen_attr(rng, db)
+        return gen_pred(rng, db, 0, pool, "tame")
+    t = rng.randint(0, 9)
+    if t == 0:
+        x = leaf(True)
+        return ["or", x, ["not", x]]
+    if t == 1:
+        x = leaf(True)
+        return ["and", x, ["not", x]]
+    if t == 2:
+        x = leaf()
+        return [rng.choice(["and", "or"]), x, x]
+    if t == 3:
+        x, y, z = leaf(), leaf(), leaf()
+        return ["or", ["and", x, y], ["and", x, z]]
+    if t == 4:
+        x, y, z = leaf(), leaf(), leaf()
+        return ["and", ["or", x, y], ["or", x, z]]
+    if t == 5:
+        x = leaf(True)
+        return ["not", ["not", x]]
+    if t == 6:
+        x, y = leaf(True), leaf(True)
+        return [rng.choice(["and", "or"]), ["not", x], ["not", y]]
+    if t == 7:
+        x, y = leaf(), leaf()
+        return ["or", ["and", x, y], x]
+    if t == 8:
+        x, y, z = leaf(), leaf(True), leaf()
+        return ["and", ["or", x, ["not", y]], ["or", y, z]]
+    x, y = leaf(True), leaf()
+    return ["or", ["and", ["not", x], y], ["and", x, ["not", ["not", x]]]]
+
+
 def make_pool(rng, db, maxlen=3):
     # the query objects re-render their SQL recursively: cost grows exponentially with path depth
     existing = []
@@ -262,6 +315,8 @@ def gen_cases(ctx):
             style = "tame" if rng.random() < 0.6 else "free"
             depth = rng.choice([0, 1, 1, 2, 2, 3, 3, 4] + ([5] if thorough else []))
             pred = gen_pred(rng, db, depth, pool, style)
+            if rng.random() < 0.18:
+                pred = gen_algebraic(rng, db, pool)
             if rng.random() < 0.02:
                 # an ill-formed comparison: the code must reject it
                 path, _ = rng.choice(pool)
@@ -282,7 +337,8 @@ def gen_cases(ctx):
                 cases.append({"kind": "order", "db": db, "pred": pred, "top_only": rng.random() < 0.5,
                               "keys": keys, "slices": slices, "index": rng.randint(-n, n - 1)})
             else:
-                cases.append({"kind": "query", "db": db, "pred": pred, "top_only": rng.random() < 0.5})
+                cases.append({"kind": "query", "db": db, "pred": pred, "top_only": rng.random() < 0.5,
+                              "chain": pred[0] == "and" and rng.random() < 0.4})
     return cases
 
 
@@ -609,7 +665,9 @@ def run(ctx):
         # one vm_compute pass: bit 1 of case_labels is check_case (model = implementation), the other
         # bits are the defect classes of the abstract case
         shard = 40
-        lab, log2 = coq_map_cases("C10", hdr, "case_labels", terms, ctx.rundir, shard=shard)
+        variant = os.environ.get("VERIF_C10_VARIANT", DEFAULT_VARIANT)
+        ctx.notes["model_variant"] = variant
+        lab, log2 = coq_map_cases("C10", hdr, LABEL_FN[variant], terms, ctx.rundir, shard=shard)
         timing['coq'] = round(time.time() - t2, 1)
         ctx.corr["cases"] += len(terms)
         ctx.corr["shards"] += (len(terms) + shard - 1) // shard
